@@ -23,6 +23,12 @@ def run(ctx):
                 if ks == 24 and rng.random() < 0.4:
                     c["kbpk"] = c["kbpk"][:16] + c["kbpk"][:8]      # K1 K2 K1
                 cases.append(c)
+    # KBPKs at the msb corner of CMAC subkey generation (KBPK itself and derived KBAK; L and K1)
+    for v, kbpk, label in t.cmac_boundary_kbpks(rng):
+        c = t.gen_case(rng, version=v, profile=rng.choice(["none", "few"]))
+        c["kbpk"] = kbpk
+        cases.append(c)
+        dist["cmac-corner KBPK"] = dist.get("cmac-corner KBPK", 0) + 1
     evals = 0
     fwd = []
     # ---- direction 1: psec -> reference
